@@ -559,6 +559,9 @@ func (w *World) infer() error {
 		}
 		for k, v := range init.RawCells(o) {
 			w.Inv[ai.CellKey{Obj: o.ID, Path: k}] = w.generalise(v)
+			if os.Getenv("GBDEBUG") == "init" && (k == ".rom" || k == ".ram") {
+				fmt.Printf("init %s%s = %s -> %s\n", o.Name, k, ai.ValueString(v), ai.ValueString(w.Inv[ai.CellKey{Obj: o.ID, Path: k}]))
+			}
 		}
 	}
 	// the memory decoder is a component boundary: callers see it as "any step of
